@@ -4,6 +4,7 @@
 
 use crate::common::{guarded_mut, Ctx};
 use fnv::FnvHasher;
+use probminhash::nohasher::NoHashHasher;
 use indexmap::IndexMap;
 use probminhash::probminhasher::{ProbMinHash2, ProbMinHash3, ProbMinHash3a, ProbMinHash3aSha};
 use probminhash::weightedset::WeightedSet;
@@ -20,8 +21,12 @@ pub enum Variant {
     P3a,
     P3aShaU64,
     P3aShaStr,
+    /// the same algorithms with the no-op hasher (item identifiers are used as generator seeds directly)
+    P2NoHash,
+    P3NoHash,
+    P3aNoHash,
 }
-const VARIANTS: [Variant; 5] = [Variant::P2, Variant::P3, Variant::P3a, Variant::P3aShaU64, Variant::P3aShaStr];
+const VARIANTS: [Variant; 8] = [Variant::P2, Variant::P3, Variant::P3a, Variant::P3aShaU64, Variant::P3aShaStr, Variant::P2NoHash, Variant::P3NoHash, Variant::P3aNoHash];
 
 #[derive(Clone, Copy, Debug, PartialEq, Eq)]
 pub enum Entry {
@@ -89,10 +94,10 @@ pub fn run_variant(v: Variant, e: Entry, m: usize, ws: &[(u64, f64)]) -> Option<
         _ => ws.clone(),
     };
     let supported = match (v, e) {
-        (Variant::P2, Entry::Item | Entry::WSet | Entry::HashMap | Entry::Reinsert(..)) => true,
-        (Variant::P2, Entry::Split(_)) => true, // two hashmap batches
-        (Variant::P3, Entry::Item | Entry::WSet | Entry::IdxMap | Entry::HashMap | Entry::Reinsert(..) | Entry::Split(_)) => true,
-        (Variant::P3a | Variant::P3aShaU64 | Variant::P3aShaStr, Entry::IdxMap | Entry::HashMap | Entry::Split(_)) => true,
+        (Variant::P2 | Variant::P2NoHash, Entry::Item | Entry::WSet | Entry::HashMap | Entry::Reinsert(..)) => true,
+        (Variant::P2 | Variant::P2NoHash, Entry::Split(_)) => true, // two hashmap batches
+        (Variant::P3 | Variant::P3NoHash, Entry::Item | Entry::WSet | Entry::IdxMap | Entry::HashMap | Entry::Reinsert(..) | Entry::Split(_)) => true,
+        (Variant::P3a | Variant::P3aNoHash | Variant::P3aShaU64 | Variant::P3aShaStr, Entry::IdxMap | Entry::HashMap | Entry::Split(_)) => true,
         _ => false,
     };
     if !supported {
@@ -101,6 +106,24 @@ pub fn run_variant(v: Variant, e: Entry, m: usize, ws: &[(u64, f64)]) -> Option<
     Some(guarded_mut(move || match v {
         Variant::P2 => {
             let mut h = ProbMinHash2::<u64, FnvHasher>::new(m, PLACEHOLDER);
+            match e {
+                Entry::Item | Entry::Reinsert(..) => {
+                    for (k, w) in &stream {
+                        h.hash_item(*k, *w);
+                    }
+                }
+                Entry::WSet => h.hash_wset(&mut WIter { items: ws.clone(), pos: 0 }),
+                Entry::HashMap => h.hash_weigthed_hashmap::<std::collections::hash_map::RandomState>(&hm(&ws)),
+                Entry::Split(c) => {
+                    h.hash_weigthed_hashmap::<std::collections::hash_map::RandomState>(&hm(&ws[..c]));
+                    h.hash_weigthed_hashmap::<std::collections::hash_map::RandomState>(&hm(&ws[c..]));
+                }
+                _ => unreachable!(),
+            }
+            (h.get_signature().clone(), regs(h.verif_registers()))
+        }
+        Variant::P2NoHash => {
+            let mut h = ProbMinHash2::<u64, NoHashHasher>::new(m, PLACEHOLDER);
             match e {
                 Entry::Item | Entry::Reinsert(..) => {
                     for (k, w) in &stream {
@@ -135,8 +158,39 @@ pub fn run_variant(v: Variant, e: Entry, m: usize, ws: &[(u64, f64)]) -> Option<
             }
             (h.get_signature().clone(), regs(h.verif_registers()))
         }
+        Variant::P3NoHash => {
+            let mut h = ProbMinHash3::<u64, NoHashHasher>::new(m, PLACEHOLDER);
+            match e {
+                Entry::Item | Entry::Reinsert(..) => {
+                    for (k, w) in &stream {
+                        h.hash_item(*k, w);
+                    }
+                }
+                Entry::WSet => h.hash_wset(&mut WIter { items: ws.clone(), pos: 0 }),
+                Entry::IdxMap => h.hash_weigthed_idxmap(&idx(&ws)),
+                Entry::HashMap => h.hash_weigthed_hashmap(&hm(&ws)),
+                Entry::Split(c) => {
+                    h.hash_weigthed_idxmap(&idx(&ws[..c]));
+                    h.hash_weigthed_hashmap(&hm(&ws[c..]));
+                }
+            }
+            (h.get_signature().clone(), regs(h.verif_registers()))
+        }
         Variant::P3a => {
             let mut h = ProbMinHash3a::<u64, FnvHasher>::new(m, PLACEHOLDER);
+            match e {
+                Entry::IdxMap => h.hash_weigthed_idxmap(&idx(&ws)),
+                Entry::HashMap => h.hash_weigthed_hashmap(&hm(&ws)),
+                Entry::Split(c) => {
+                    h.hash_weigthed_idxmap(&idx(&ws[..c]));
+                    h.hash_weigthed_hashmap(&hm(&ws[c..]));
+                }
+                _ => unreachable!(),
+            }
+            (h.get_signature().clone(), regs(h.verif_registers()))
+        }
+        Variant::P3aNoHash => {
+            let mut h = ProbMinHash3a::<u64, NoHashHasher>::new(m, PLACEHOLDER);
             match e {
                 Entry::IdxMap => h.hash_weigthed_idxmap(&idx(&ws)),
                 Entry::HashMap => h.hash_weigthed_hashmap(&hm(&ws)),
@@ -179,7 +233,7 @@ pub fn run_variant(v: Variant, e: Entry, m: usize, ws: &[(u64, f64)]) -> Option<
 
 fn canonical_entry(v: Variant) -> Entry {
     match v {
-        Variant::P2 | Variant::P3 => Entry::Item,
+        Variant::P2 | Variant::P3 | Variant::P2NoHash | Variant::P3NoHash => Entry::Item,
         _ => Entry::IdxMap,
     }
 }
@@ -617,6 +671,16 @@ pub fn run(ctx: &Ctx) -> i32 {
             }
         }
     }
+    for (v, e, ws) in [
+        (Variant::P3a, Entry::Split(1), vec![(4u64, 1e-300), (1, 0.5), (3, 1e300)]),
+        (Variant::P2, Entry::Reinsert(0, 1), vec![(2, 3.0), (1, 1.0)]),
+        (Variant::P3aShaStr, Entry::HashMap, vec![(1, 0.5), (2, 1.0), (3, 3.0)]),
+    ] {
+        if let Some(Ok((sig, regs))) = run_variant(v, e, 4, &ws) {
+            ctx.sample(json!({"variant": format!("{:?}", v), "entry": format!("{:?}", e), "m": 4, "inserted_as": ws_json(&ws), "signature": sig,
+                "registers": regs.iter().map(|b| f64::from_bits(*b)).collect::<Vec<_>>()}));
+        }
+    }
     tiny_weight_probe(ctx, &mut st);
     println!(
         "C02 executions={} weighted sets={} exact ties={} displacing-last-item runs={} distinct signatures={} scaling cases={} union cases={} P3/P3a comparisons={}",
@@ -634,7 +698,7 @@ pub fn run(ctx: &Ctx) -> i32 {
         "exhaustive": true,
         "evaluations": st.execs,
         "distinct_nontrivial": st.distinct_sigs,
-        "rule": "for ProbMinHash2, 3, 3a, 3a-Sha (u64 and String keys), m in {2,3,4,8,16,(33)}: every non-empty weighted set over 4 (5) items x weights {absent,0.5,1,3,1e-300,1e300}, ALL insertion orders, every entry point (hash_item, hash_wset, IndexMap, std HashMap), every 2-way batch split, every re-insertion of an already inserted pair at every later point; registers (hook H2) must equal the position-wise minimum and the signature the argmin of the REAL single-item runs (exact; bit-equal ties are classified and only checked for membership), every position holds an item of the set; plus forced near-ties (weights tuned from the real single-item runs so that two items differ by 1e-9 .. 3e-15 relative at a chosen position, both orders), weight scaling by 2^k, the union clause on sets up to 300 items, ProbMinHash3 == ProbMinHash3a on all 1295 sets, and single items with weights down to the smallest normal float; distinct = distinct signatures",
+        "rule": "for ProbMinHash2, 3, 3a (Fnv and no-op hashers), 3a-Sha (u64 and String keys), m in {2,3,4,8,16,(33)}: every non-empty weighted set over 4 (5) items x weights {absent,0.5,1,3,1e-300,1e300}, ALL insertion orders, every entry point (hash_item, hash_wset, IndexMap, std HashMap), every 2-way batch split, every re-insertion of an already inserted pair at every later point; registers (hook H2) must equal the position-wise minimum and the signature the argmin of the REAL single-item runs (exact; bit-equal ties are classified and only checked for membership), every position holds an item of the set; plus forced near-ties (weights tuned from the real single-item runs so that two items differ by 1e-9 .. 3e-15 relative at a chosen position, both orders), weight scaling by 2^k, the union clause on sets up to 300 items, ProbMinHash3 == ProbMinHash3a on all 1295 sets, and single items with weights down to the smallest normal float; distinct = distinct signatures",
         "weighted_sets": st.sets,
         "forced_near_ties": nears,
         "exact_ties_classified": st.ties,
